@@ -3,6 +3,14 @@ package main
 // Dialects `store` and `store-size` (C09): the real store.NewOnDiskStore (behind
 // store.NewWriteControlledStore) in a temporary directory against the Lean model
 // (GluonModel/Model/Store.lean, driver GluonModel/Driver/DStore.lean).
+//
+// Beyond one call at a time, the `store` runner looks at TIME:
+//   - every slice a Get returned is kept (with a private copy) and compared again after each later op of the scenario;
+//     a difference is appended to that op's result as `!changed:<op index of the Get>` (the model never says that:
+//     C09.get_result_stable; the judge calls it cause=returned-bytes-changed-later);
+//   - ops B<id>=<content>@<k> / E<id> / A<id> hold a Set in progress (its reader delivers k bytes and waits), so that the
+//     following ops (List above all) run WHILE that Set is in progress, then let it complete (E) or make its reader
+//     fail (A: interrupted Set). List renders ids the harness never made as `foreign-<uuid>`.
 
 import (
 	"bytes"
@@ -15,6 +23,8 @@ import (
 	"sort"
 	"strconv"
 	"strings"
+	"sync"
+	"time"
 
 	"github.com/ProtonMail/gluon/imap"
 	"github.com/ProtonMail/gluon/store"
@@ -125,6 +135,8 @@ func storeDigest(b []byte) string { return fmt.Sprintf("%d:%016x", len(b), c09Fn
 func storeErrClass(err error) string {
 	es := err.Error()
 	switch {
+	case errors.Is(err, c09ErrReaderFailed):
+		return "reader"
 	case errors.Is(err, fs.ErrNotExist):
 		return "notfound"
 	case strings.Contains(es, "failed to read from fallback"):
@@ -233,6 +245,153 @@ func storeAlter(f []byte, kind string) ([]byte, bool) {
 	return nil, false
 }
 
+// c09ErrReaderFailed is what the reader of an interrupted Set returns (ops A of the `store` dialect, oracle cases).
+var c09ErrReaderFailed = errors.New("c09: the reader handed to Set failed")
+
+// c09HeldReader delivers the first k bytes of data and then waits (inside Read) for resume(): a Set reading from it
+// is deterministically "in progress" once `reached` is closed. resume(true) delivers the rest and io.EOF,
+// resume(false) makes the pending and every later Read fail with c09ErrReaderFailed.
+type c09HeldReader struct {
+	data    []byte
+	pos, k  int
+	mode    int // 0 first part, 1 rest, 2 fail
+	reached chan struct{}
+	cmd     chan int
+	once    sync.Once
+}
+
+func newC09HeldReader(data []byte, k int) *c09HeldReader {
+	if k > len(data) {
+		k = len(data)
+	}
+	if k < 0 {
+		k = 0
+	}
+	return &c09HeldReader{data: data, k: k, reached: make(chan struct{}), cmd: make(chan int, 1)}
+}
+
+func (h *c09HeldReader) Read(p []byte) (int, error) {
+	if h.mode == 0 && h.pos >= h.k {
+		h.once.Do(func() { close(h.reached) })
+		h.mode = <-h.cmd
+	}
+	if h.mode == 2 {
+		return 0, c09ErrReaderFailed
+	}
+	limit := len(h.data)
+	if h.mode == 0 {
+		limit = h.k
+	}
+	if h.pos >= limit {
+		return 0, io.EOF
+	}
+	n := copy(p, h.data[h.pos:limit])
+	h.pos += n
+	return n, nil
+}
+
+func (h *c09HeldReader) resume(deliverRest bool) {
+	if deliverRest {
+		h.cmd <- 1
+	} else {
+		h.cmd <- 2
+	}
+}
+
+// c09Flight is a Set in progress.
+type c09Flight struct {
+	r    *c09HeldReader
+	done chan error
+}
+
+// c09BeginSet starts set(r) in a goroutine and waits until the reader has delivered its first part and is asked for
+// more (the Set is then in progress), or until the Set returned (early = true).
+func c09BeginSet(set func(io.Reader) error, data []byte, k int) (fl *c09Flight, early bool, err error) {
+	fl = &c09Flight{r: newC09HeldReader(data, k), done: make(chan error, 1)}
+	go func() { fl.done <- set(fl.r) }()
+	select {
+	case <-fl.r.reached:
+		return fl, false, nil
+	case err = <-fl.done:
+		return fl, true, err
+	case <-time.After(30 * time.Second):
+		return fl, true, errors.New("harness: Set neither read its input nor returned within 30 s")
+	}
+}
+
+func (fl *c09Flight) end(deliverRest bool) error {
+	fl.r.resume(deliverRest)
+	select {
+	case err := <-fl.done:
+		return err
+	case <-time.After(60 * time.Second):
+		return errors.New("harness: Set did not return within 60 s after its reader ended")
+	}
+}
+
+// c09ListItem renders an id List returned: the number of a harness id, or the id itself if the harness never made it.
+func c09ListItem(id imap.InternalMessageID) (int, string) {
+	s := id.String()
+	const prefix = "00000000-0000-4000-8000-"
+	if strings.HasPrefix(s, prefix) && len(s) == len(prefix)+12 {
+		if n, err := strconv.Atoi(strings.TrimLeft(s[len(prefix):], "0")); err == nil && storeID(n).String() == s {
+			return n, ""
+		}
+	}
+	return 0, "foreign-" + s
+}
+
+func c09RenderList(ids []imap.InternalMessageID) string {
+	var ns []int
+	var foreign []string
+	for _, id := range ids {
+		if n, f := c09ListItem(id); f != "" {
+			foreign = append(foreign, f)
+		} else {
+			ns = append(ns, n)
+		}
+	}
+	sort.Ints(ns)
+	sort.Strings(foreign)
+	var ss []string
+	for _, n := range ns {
+		ss = append(ss, strconv.Itoa(n))
+	}
+	ss = append(ss, foreign...)
+	if len(ss) == 0 {
+		return "ids:-"
+	}
+	return "ids:" + strings.Join(ss, ",")
+}
+
+// c09OpIDs: the ids an op of the `store` dialect works on (guard for ids whose Set is in progress).
+func c09OpIDs(op string) []int {
+	if op == "" {
+		return nil
+	}
+	switch op[0] {
+	case 'S', 'B':
+		return []int{atoi(strings.SplitN(op[1:], "=", 2)[0])}
+	case 'G':
+		return []int{atoi(op[1:])}
+	case 'D':
+		var out []int
+		for _, s := range strings.Split(op[1:], ",") {
+			out = append(out, atoi(s))
+		}
+		return out
+	case 'X':
+		return []int{atoi(strings.SplitN(op[1:], ":", 2)[0])}
+	}
+	return nil
+}
+
+// c09Kept is the slice a Get returned, kept by the runner, and a private copy of what it held at that moment.
+type c09Kept struct {
+	op        int
+	got, want []byte
+}
+
 func implStore(args []string) string {
 	if len(args) != 1 {
 		return "bad-op"
@@ -244,28 +403,66 @@ func implStore(args []string) string {
 	defer os.RemoveAll(dir)
 	st := openVerifStore(dir, 0)
 	var out []string
-	for _, op := range strings.Split(args[0], ";") {
+	flights := map[int]*c09Flight{}
+	defer func() {
+		for _, fl := range flights {
+			_ = fl.end(false)
+		}
+	}()
+	var kept []*c09Kept
+	for opIndex, op := range strings.Split(args[0], ";") {
 		res := "bad-op"
+		guarded := strings.HasPrefix(op, "K") && len(flights) > 0
+		for _, id := range c09OpIDs(op) {
+			if flights[id] != nil {
+				guarded = true
+			}
+		}
 		switch {
+		case guarded:
+			// through WriteControlledStore the operation would wait for the Set in progress
 		case op == "L":
 			ids, err := st.List()
 			if err != nil {
 				res = "err:" + storeErrClass(err)
 				break
 			}
-			var ns []int
-			for _, id := range ids {
-				ns = append(ns, storeIDNum(id))
+			res = c09RenderList(ids)
+		case strings.HasPrefix(op, "B"):
+			p := strings.SplitN(op[1:], "=", 2)
+			if len(p) != 2 {
+				break
 			}
-			sort.Ints(ns)
-			var ss []string
-			for _, n := range ns {
-				ss = append(ss, strconv.Itoa(n))
+			ck := strings.SplitN(p[1], "@", 2)
+			if len(ck) != 2 {
+				break
 			}
-			if len(ss) == 0 {
-				res = "ids:-"
+			b, ok := storeContent(ck[0])
+			if !ok {
+				break
+			}
+			id := atoi(p[0])
+			fl, early, err := c09BeginSet(func(r io.Reader) error { return st.Set(storeID(id), r) }, b, atoi(ck[1]))
+			switch {
+			case !early:
+				flights[id] = fl
+				res = "ok"
+			case err != nil:
+				res = "err:" + storeErrClass(err)
+			default:
+				res = "ok-early"
+			}
+		case strings.HasPrefix(op, "E"), strings.HasPrefix(op, "A"):
+			id := atoi(op[1:])
+			fl := flights[id]
+			if fl == nil {
+				break
+			}
+			delete(flights, id)
+			if err := fl.end(op[0] == 'E'); err != nil {
+				res = "err:" + storeErrClass(err)
 			} else {
-				res = "ids:" + strings.Join(ss, ",")
+				res = "ok"
 			}
 		case strings.HasPrefix(op, "S"):
 			p := strings.SplitN(op[1:], "=", 2)
@@ -288,6 +485,7 @@ func implStore(args []string) string {
 				res = "err:" + storeGetErrClass(err, filepath.Join(dir, gid.String()))
 			} else {
 				res = "ok:" + storeDigest(b)
+				kept = append(kept, &c09Kept{op: opIndex + 1, got: b, want: append([]byte(nil), b...)})
 			}
 		case strings.HasPrefix(op, "D"):
 			var ids []imap.InternalMessageID
@@ -323,6 +521,14 @@ func implStore(args []string) string {
 				break
 			}
 			res = "ok"
+		}
+		// result lifetime: what earlier Gets returned must still be what it was (C09.get_result_stable)
+		for i, h := range kept {
+			if h != nil && !bytes.Equal(h.got, h.want) {
+				res += fmt.Sprintf("!changed:%d", h.op)
+				kept[i] = nil
+				break
+			}
 		}
 		out = append(out, res)
 	}
@@ -382,8 +588,172 @@ func genStoreContent(r *Rng, st *Stats) string {
 	return fmt.Sprintf("%s%d", kind, n)
 }
 
+// c09GenLifetimeLine: result lifetime. Two large messages and a small one, sizes on both sides of plausible buffer
+// pooling / reuse thresholds (LZ4 block 64 KiB, store block 256 KiB, 1 MiB, 4 MiB); Gets in a row of the same id, of
+// other ids of smaller / equal / larger size, then Set, overwrite, Delete. The runner keeps every returned slice and
+// compares it again after each later op (suffix !changed:<op>), the model's results are values.
+func c09GenLifetimeLine(r *Rng, st *Stats, t int) string {
+	size := func(t int) (int, string) {
+		d := Pick(r, []int{-1, 0, 1, t / 2, 4097})
+		return t + d, fmt.Sprintf("store.lifetime.size~%dKiB", t/1024)
+	}
+	content := func(n int) string {
+		switch r.Intn(4) {
+		case 0:
+			return fmt.Sprintf("t%d", n)
+		case 1:
+			return fmt.Sprintf("cr%d.%d+t%d", n/2, r.Intn(1000), n-n/2)
+		default:
+			return fmt.Sprintf("r%d.%d", n, r.Intn(1000))
+		}
+	}
+	na, ka := size(t)
+	tb := t
+	if t > 1048576 {
+		tb = 1048576 // one very large message per line is enough (model time)
+	} else if r.Chance(1, 3) {
+		tb = Pick(r, []int{65536, 262144, 1048576})
+	}
+	nb, kb := size(tb)
+	if tb == t && r.Chance(1, 2) {
+		nb = na // equal size
+	}
+	st.Inc(ka)
+	st.Inc(kb)
+	st.Inc("store.lifetime.lines")
+	ops := []string{
+		fmt.Sprintf("S1=%s", content(na)), fmt.Sprintf("S2=%s", content(nb)), fmt.Sprintf("S3=%s", genStoreContent(r, st)),
+		"G1", Pick(r, []string{"G3", "G2", "G1"}), Pick(r, []string{"G2", "G3"}), "G1",
+	}
+	if t > 1048576 {
+		// very large: a short line (the oracle's lifetime case does the long histories at this size)
+		ops = []string{ops[0], ops[1], ops[2], "G1", Pick(r, []string{"G3", "G2"}), "G1", "L"}
+		return "store " + strings.Join(ops, ";")
+	}
+	for k, extra := 0, r.Range(2, 5); k < extra; k++ {
+		switch r.Intn(7) {
+		case 0:
+			ops = append(ops, fmt.Sprintf("S4=%s", genStoreContent(r, st)), "G4")
+		case 1:
+			ops = append(ops, fmt.Sprintf("S1=%s", content(Pick(r, []int{100, na, na / 2}))), "G1") // overwrite while the old result is kept
+		case 2:
+			ops = append(ops, fmt.Sprintf("D%d", r.Range(1, 3)))
+		case 3:
+			ops = append(ops, "L")
+		default:
+			ops = append(ops, fmt.Sprintf("G%d", r.Range(1, 3)))
+		}
+	}
+	ops = append(ops, "G3", "L")
+	return "store " + strings.Join(ops, ";")
+}
+
+// c09GenInFlightLine: List (and operations on other ids) while a Set is in progress, then the Set completes (E) or
+// its reader fails (A: interrupted Set) after k bytes, k around the LZ4 piece and the store block boundaries.
+func c09GenInFlightLine(r *Rng, st *Stats) string {
+	var ops []string
+	stored := map[int]bool{}
+	for id := 1; id <= 3; id++ {
+		if r.Chance(2, 3) {
+			ops = append(ops, fmt.Sprintf("S%d=%s", id, genStoreContent(r, st)))
+			stored[id] = true
+		}
+	}
+	begin := func(id int) {
+		var c string
+		var k int
+		if r.Chance(1, 4) {
+			// incompressible and long enough for whole sealed blocks to be on disk when the reader stops
+			n := Pick(r, []int{70000, 262144, 262145 + r.Intn(3), 300000, 530000, 600000})
+			c = fmt.Sprintf("r%d.%d", n, r.Intn(1000))
+			k = Pick(r, []int{0, 65535, 65536, 65537, 131072, 262143, 262144, 262145, 4 * 65536, 4*65536 + 70000, n - 1, n})
+			st.Inc("store.inflight.content.big")
+		} else {
+			c = genStoreContent(r, st)
+			b, _ := storeContent(c)
+			k = Pick(r, []int{0, 0, 1, len(b) / 2, len(b), len(b) + 1})
+		}
+		ops = append(ops, fmt.Sprintf("B%d=%s@%d", id, c, k))
+		if stored[id] {
+			st.Inc("store.inflight.begin.overwrite")
+		} else {
+			st.Inc("store.inflight.begin.new-id")
+		}
+	}
+	fid := r.Range(1, 4)
+	begin(fid)
+	flying := []int{fid}
+	if r.Chance(1, 5) {
+		g := r.Range(1, 4)
+		if g != fid {
+			begin(g)
+			flying = append(flying, g)
+		}
+	}
+	other := func() int {
+		for {
+			id := r.Range(1, 5)
+			free := true
+			for _, f := range flying {
+				if f == id {
+					free = false
+				}
+			}
+			if free {
+				return id
+			}
+		}
+	}
+	ops = append(ops, "L")
+	for k, m := 0, r.Intn(4); k < m; k++ {
+		switch r.Intn(5) {
+		case 0:
+			ops = append(ops, fmt.Sprintf("S%d=%s", other(), genStoreContent(r, st)))
+		case 1:
+			ops = append(ops, fmt.Sprintf("D%d", other()))
+		case 2:
+			ops = append(ops, "L")
+		default:
+			ops = append(ops, fmt.Sprintf("G%d", other()))
+		}
+	}
+	if r.Chance(1, 2) {
+		ops = append(ops, "L")
+	}
+	for _, f := range flying {
+		if r.Chance(1, 2) {
+			ops = append(ops, fmt.Sprintf("E%d", f))
+			st.Inc("store.inflight.end.complete")
+		} else {
+			ops = append(ops, fmt.Sprintf("A%d", f))
+			st.Inc("store.inflight.end.reader-failed")
+		}
+		ops = append(ops, "L", fmt.Sprintf("G%d", f))
+	}
+	if r.Chance(1, 2) {
+		ops = append(ops, fmt.Sprintf("S%d=%s", fid, genStoreContent(r, st)), fmt.Sprintf("G%d", fid), "L")
+	} else if r.Chance(1, 2) {
+		ops = append(ops, fmt.Sprintf("D%d", fid), "L")
+	}
+	st.Inc("store.inflight.lines")
+	return "store " + strings.Join(ops, ";")
+}
+
+// thresholds of the lifetime lines, in turn: LZ4 piece, store block, 1 MiB, once 4 MiB
+var c09LifetimeSchedule = []int{65536, 1048576, 262144, 1048576, 65536, 1048576, 262144, 4194304, 1048576, 65536, 1048576, 262144}
+
 func genStore(r *Rng, n int, w io.Writer, st *Stats) {
+	lifetimeLines := 0
 	for i := 0; i < n; i++ {
+		if (i < 2000 && i%100 == 37) || (i >= 2000 && i%400 == 37) { // large lines (1-8 s each on the model side): fixed positions and a fixed size schedule keep the cost even across seeds
+			fmt.Fprintln(w, c09GenLifetimeLine(r, st, c09LifetimeSchedule[lifetimeLines%len(c09LifetimeSchedule)]))
+			lifetimeLines++
+			continue
+		}
+		if (i < 2000 && r.Chance(1, 25)) || (i >= 2000 && r.Chance(1, 40)) {
+			fmt.Fprintln(w, c09GenInFlightLine(r, st))
+			continue
+		}
 		if (i < 2000 && r.Chance(1, 50)) || (i >= 2000 && r.Chance(1, 300)) { // these lines are large (0.5 s each on the model side)
 			// a content whose sealed block `good` starts exactly where an LZ4 data block starts (o_store_aligned.go),
 			// then damage inside the LAST sealed block (a later block): the model answers err:corrupt
